@@ -132,7 +132,7 @@ class FunctionRFA(AbstractRFA):
     def rfa(self):
         function = self._get_sampling_function()
         xs, ys = self._initial_oversample()
-        ys = [function(x) for x in xs]
+        ys = np.array([function(x) for x in xs], dtype=float)
         return xs, ys
 
     def _get_sampling_function(self):
